@@ -224,11 +224,11 @@ func (c *loopConn) Close() error {
 	c.mu.Unlock()
 	return nil
 }
-func (c *loopConn) LocalAddr() net.Addr                { return simAddr{} }
-func (c *loopConn) RemoteAddr() net.Addr               { return simAddr{} }
-func (c *loopConn) SetDeadline(time.Time) error        { return nil }
-func (c *loopConn) SetReadDeadline(time.Time) error    { return nil }
-func (c *loopConn) SetWriteDeadline(time.Time) error   { return nil }
+func (c *loopConn) LocalAddr() net.Addr              { return simAddr{} }
+func (c *loopConn) RemoteAddr() net.Addr             { return simAddr{} }
+func (c *loopConn) SetDeadline(time.Time) error      { return nil }
+func (c *loopConn) SetReadDeadline(time.Time) error  { return nil }
+func (c *loopConn) SetWriteDeadline(time.Time) error { return nil }
 func (c *loopConn) packets() (pk []*Packet, rest []byte) {
 	c.mu.Lock()
 	defer c.mu.Unlock()
